@@ -11,7 +11,7 @@
 use std::collections::HashMap;
 use std::sync::Arc;
 
-use futures_util::stream::TryStreamExt as _;
+use futures::TryStreamExt as _;
 use jj_lib::backend::CommitId;
 use jj_lib::backend::MillisSinceEpoch;
 use jj_lib::backend::Signature;
